@@ -365,6 +365,54 @@ func runC14(w *World, r *Report) {
 		r.Check(byKey >= 2, "C14.map-order", "concatMaps writes results by key", cm.Pos(), fmt.Sprintf("%d SetMapIndex writes", byKey), "map concatenation no longer writes by key")
 	}
 
+	// ---- result-keeps-the-chunks-type: the map concatMaps returns is made of the chunks' own type
+	r.Rule("C14.result-keeps-the-chunks-type", "concatMaps builds its result with the chunks' own (possibly named) map type, not with a type re-assembled from key and element (reflect.MapOf): a named map type would come back unnamed — nested, prefix-then-rest then fails 'unexpected slice element type'; at top level ConcatItems' conversion back to T silently yields a nil map", 1)
+	{
+		cmf := w.Fn("internal", "concatMaps")
+		n := 0
+		instrs(cmf, func(in ssa.Instruction) {
+			c, ok := in.(*ssa.Call)
+			if !ok {
+				return
+			}
+			nm := calleeFullName(c)
+			if nm != "reflect.MakeMap" && nm != "reflect.MakeMapWithSize" {
+				return
+			}
+			// only the map that is handed back: it is the first result of a success return, or SetMapIndex'd and returned
+			returned := false
+			instrs(cmf, func(x ssa.Instruction) {
+				if ret, isRet := x.(*ssa.Return); isRet && len(ret.Results) == 2 && isNilConst(ret.Results[1]) {
+					v := ret.Results[0]
+					if v == ssa.Value(c) {
+						returned = true
+					}
+					if u, isU := v.(*ssa.UnOp); isU {
+						if a, isA := u.X.(*ssa.Alloc); isA {
+							for _, st := range storesToCell(cmf, a) {
+								if st.Val == ssa.Value(c) {
+									returned = true
+								}
+							}
+						}
+					}
+				}
+			})
+			if !returned {
+				return
+			}
+			n++
+			_, reassembled := c.Call.Args[0].(*ssa.Call)
+			if reassembled {
+				reassembled = calleeFullName(c.Call.Args[0].(*ssa.Call)) == "reflect.MapOf"
+			}
+			r.Check(!reassembled, "C14.result-keeps-the-chunks-type", "concatMaps: the returned map is made of the chunks' type", c.Pos(), "reflect.MakeMap(typ) with typ the chunks' own type", "the result map's type is re-assembled with reflect.MapOf(key, elem): `type Citations map[string]any` comes back as map[string]interface {} — all-at-once succeeds, prefix-then-rest fails 'unexpected slice element type. Got map[string]interface {}', and a named map as chunk type is lost altogether (nil map, no error)")
+		})
+		if n == 0 {
+			r.Fail("C14.result-keeps-the-chunks-type", "concatMaps: the returned map is made of the chunks' type", cmf.Pos(), "what concatMaps returns on success is not a map it made with reflect.MakeMap: the result is written into something it was handed (the first chunk's map) — the chunk other receivers of the same stream still read is rewritten")
+		}
+	}
+
 	// ---- registry-first: a registered concat function decides for its type whatever the type's kind
 	r.Rule("C14.registry-first", "the built-in key-wise map merge (concatMaps) is entered only where the registry was asked for the chunk type and had nothing: a function registered for a named map type is what concatenates its chunks, as for every other kind; the same for the retyping of interface-typed chunks by their dynamic type", 3)
 	{
@@ -466,6 +514,36 @@ func runC14(w *World, r *Report) {
 		})
 		if n == 0 {
 			r.Fail("C14.group-key-local", "concatToolCalls groups fragments", ctc.Pos(), "no write to the group map")
+		}
+	}
+
+	// … and the index a merged call carries is its group's key: every store to ToolCall.Index in concatToolCalls stores the
+	// address of a cell that holds the key of the group map's range (or the call is a whole copy of a fragment) — a merged
+	// prefix renumbered 0..n-1 no longer matches the provider's numbers on the fragments that arrive later
+	{
+		ctc := w.Fn("schema", "concatToolCalls")
+		tcT := w.Named("schema", "ToolCall")
+		k := 0
+		for _, fw := range fieldWrites(ctc) {
+			if fw.owner != tcT || fw.field.Name() != "Index" || fw.kind != "store" {
+				continue
+			}
+			k++
+			good := false
+			if a, ok := fw.val.(*ssa.Alloc); ok {
+				good = true
+				for _, st := range storesToCell(ctc, a) {
+					e, isE := st.Val.(*ssa.Extract)
+					if !isE {
+						good = false
+						continue
+					}
+					if _, isNext := e.Tuple.(*ssa.Next); !isNext {
+						good = false
+					}
+				}
+			}
+			r.Check(good, "C14.group-key-local", fmt.Sprintf("concatToolCalls: Index store #%d keeps the group's key", k), fw.in.Pos(), "&index with index = the key of the group map's range", "a merged tool call is given an index that is not its fragments' ("+valText(fw.val)+"): Index is the merge key, so a concatenated prefix carries renumbered indexes while later fragments still carry the provider's — with indexes that do not start at 0 or have gaps, arguments are glued onto the wrong call and a nameless extra call appears (prefix-then-rest differs from all-at-once)")
 		}
 	}
 
